@@ -5,8 +5,8 @@ import "verif/checker/internal/core"
 func init() {
 	register(&Prop{
 		ID:    "C03",
-		Rules: []*Rule{rSpecialLeaf},
-		Explain: "interim: R-SPECIAL-LEAF only",
+		Rules: []*Rule{rTaint, rSpecialLeaf},
+		Explain: "interim",
 		Trusted: []string{"go/ssa"},
 	})
 	register(&Prop{
